@@ -330,7 +330,47 @@ pub fn plan_case(id: &str, data: &[u8]) -> Option<Case> {
         "C05" | "C10" => (20, 20),
         _ => (40, 148),
     };
+    if id == "C13" {
+        // templates over the projected elements (natural widths), as C13's own generator builds them
+        let all = [256u16, 257, 300, 1024, 65535];
+        let n = 2 + r.below(3);
+        let ids: Vec<u16> = all[..n].to_vec();
+        let mk = |v9: bool, r: &mut Rd| -> Vec<Vec<Def>> {
+            (0..n)
+                .map(|_| {
+                    let alts = 1 + r.below(2);
+                    (0..alts)
+                        .map(|_| {
+                            let mask = u16::from(r.u8()) | (u16::from(r.u8() & 1) << 8);
+                            let sel: Vec<usize> = (0..9).filter(|b| mask >> b & 1 == 1).collect();
+                            let ne = r.below(5);
+                            let extra = (0..ne).map(|_| (r.u8(), 0u8, 0u8, 0u8)).collect();
+                            let f = r.u8();
+                            props::c13::make_projected(v9, sel, f & 1 == 1, f & 2 == 2, extra, u64::from(r.u32()) << 8 | 1)
+                        })
+                        .collect()
+                })
+                .collect()
+        };
+        let v9 = mk(true, &mut r);
+        let ipfix = mk(false, &mut r);
+        let pool = Pool { ids, v9, ipfix };
+        let n_calls = 1 + r.below(3);
+        let calls: Vec<Vec<PktPlan>> = (0..n_calls).map(|_| { let k = 1 + r.below(3); (0..k).map(|_| rd_packet(&mut r, (50, 153))).collect() }).collect();
+        let built = gen::build(&StreamPlan { pool, calls }, &BuildOpts { count_by_flowsets: true, ..BuildOpts::STRICT });
+        return Some(Case { allowed: vec![crate::engine::DEFAULT_ALLOWED.to_vec()], calls: built.calls, params: BTreeMap::new() });
+    }
     let pool = rd_pool(&mut r, mixed);
+    if id == "C07" {
+        let n_calls = 1 + r.below(4);
+        let calls: Vec<Vec<PktPlan>> = (0..n_calls).map(|_| { let k = 1 + r.below(3); (0..k).map(|_| rd_packet(&mut r, (30, 143))).collect() }).collect();
+        let is_v9 = r.u8() & 1 == 1;
+        let sel = r.u8();
+        let nrec = 1 + r.below(3);
+        let recs = (0..nrec).map(|_| { let l = r.below(12); r.bytes(l) }).collect();
+        let (wc, wa) = (r.u8(), r.u8());
+        return Some(props::c07::assemble(pool, calls, is_v9, sel, recs, wc, wa));
+    }
     let mut calls: Vec<Vec<PktPlan>> = vec![];
     let mut parsers: Vec<usize> = vec![];
     let n_calls = if id == "C11" { 1 } else { 1 + r.below(5) };
@@ -376,6 +416,8 @@ pub fn run_plan(data: &[u8]) {
         "C04" => props::c04::oracle,
         "C05" => props::c05::oracle,
         "C06" => props::c06::oracle,
+        "C07" => props::c07::oracle,
+        "C13" => props::c13::oracle,
         "C09" => props::reexport::oracle_c09,
         "C10" => props::reexport::oracle_c10,
         "C11" => props::c11::oracle,
